@@ -970,6 +970,23 @@ static void codec_boundary_test(long n) {
   std::printf("T tested=%ld bad=%ld ties=%ld nonadjacent=%ld first=%s\n", tested, bad, ties, nonadj, bad ? first_bad.c_str() : "-");
 }
 
+// integer-valued doubles |v| < 10^15 through the real g_fmt: "Z <v> <text>" (and "M gint <v>" for the Lean model gfmtInt)
+static void int_text_test(long n) {
+  auto one = [&](long long v) {
+    if (v == 0) return;
+    char buf[64]; DAVID_GAY_GFMT::g_fmt(buf, (double)v, 0);
+    std::printf("M gint %lld\nZ %lld %s\n", v, v, buf);
+  };
+  long long p10[16]; p10[0] = 1; for (int i = 1; i < 16; ++i) p10[i] = p10[i - 1] * 10;
+  for (int L = 1; L <= 15; ++L) for (int z = 0; L + z <= 15; ++z) for (int r = 0; r < 3; ++r) {
+    long long d = L == 1 ? 1 + (long long)(rnd() % 9) : p10[L - 1] + (long long)(rnd() % (unsigned long long)(p10[L] - p10[L - 1]));
+    if (d % 10 == 0) d += 1 + (long long)(rnd() % 9);
+    one(d * p10[z]); one(-d * p10[z]);
+  }
+  for (int i = 1; i <= 15; ++i) { one(p10[i - 1]); one(p10[i] - 1); one(-p10[i - 1]); }
+  for (long i = 0; i < n; ++i) { long long v = (long long)(rnd() % 1000000000000000ULL); one(coin(50) ? v : -v); one((long long)(rnd() % 100000)); }
+}
+
 // ---------------------------------------------------------------- main
 int main(int argc, char **argv) {
   std::string tier = argc > 1 ? argv[1] : "quick";
@@ -1088,6 +1105,7 @@ int main(int argc, char **argv) {
   }
   codec_test(thorough ? 20000000 : 1000000);
   codec_boundary_test(thorough ? 12000000 : 450000);
+  int_text_test(thorough ? 200000 : 3000);
   std::printf("# models=%ld runs=%ld expr_nodes=%ld\n", stat_models, stat_runs, stat_nodes);
   std::printf("# pagesize-runs size%%4096==4095:%ld ==0:%ld ==1:%ld missed:%ld\n", stat_padded[0], stat_padded[1], stat_padded[2], stat_pad_miss);
   for (int i = 0; i < NOPS; ++i) std::printf("# opused %s %ld\n", OPS[i].name, op_used[i]);
